@@ -86,6 +86,7 @@ def _dotted(node) -> Optional[str]:
 
 class Model:
     _aliases = None
+    moved: Dict[str, str] = None
 
     def __init__(self, root: Optional[str] = None):
         self.root = root or repo_root()
@@ -240,10 +241,10 @@ class Model:
             own = [n for n in ast.walk(other.node)]
             nested = {id(x) for d in ast.walk(other.node) if isinstance(d, (ast.FunctionDef, ast.Lambda)) and d is not other.node for x in ast.walk(d)}
             for n in own:
-                if id(n) in nested or not isinstance(n, ast.Call):
+                if id(n) in nested:
                     continue
-                f = n.func
-                if (isinstance(f, ast.Name) and f.id == name) or (isinstance(f, ast.Attribute) and f.attr == name):
+                # called, or handed on as a value (functools.partial(helper, ...), lax.cond(p, helper, ...), _submit(self.helper))
+                if (isinstance(n, ast.Name) and n.id == name and isinstance(n.ctx, ast.Load)) or (isinstance(n, ast.Attribute) and n.attr == name and isinstance(n.ctx, ast.Load)):
                     out.extend(self.home_functions(q, _depth + 1))
                     break
         return sorted(set(out)) or [ref]
@@ -267,6 +268,7 @@ class Model:
         if self._aliases is not None:
             return self._aliases
         self._aliases = {}
+        self.moved = {}
         p = os.path.join(os.path.dirname(os.path.abspath(__file__)), "known_api.json")
         try:
             known = json.load(open(p))
@@ -284,9 +286,10 @@ class Model:
                 continue
             parent, _ = q.rsplit(".", 1)
             parent_now = self._aliases.get(parent, parent)
-            if parent_now not in self.functions:
-                continue  # only nested functions (closures) are followed; methods / module functions are API
-            cands = [n for n in new if n.rsplit(".", 1)[0] == parent_now and params(self.functions[n]) == kparams[q] and n not in self._aliases.values()]
+            nested_cls = parent_now not in self.functions and any(parent_now.startswith(f + ".") for f in kset if f in kparams and f.count(".") < parent_now.count("."))
+            if parent_now not in self.functions and not nested_cls:
+                continue  # only nested functions / classes are followed; methods / module functions are API
+            cands = [] if nested_cls and parent_now not in self.classes else [n for n in new if n.rsplit(".", 1)[0] == parent_now and params(self.functions[n]) == kparams[q] and n not in self._aliases.values()]
             if len(cands) > 1 and q in known.get("fingerprint", {}):
                 # several renamed siblings with the same signature: take the one whose body mentions the same attributes
                 ref = set(known["fingerprint"][q])
@@ -295,6 +298,36 @@ class Model:
                     cands = [scored[0][1]]
             if len(cands) == 1:
                 self._aliases[q] = cands[0]
+                continue
+            if cands:
+                continue
+            # not renamed in place: a nested function moved out of its parent (to module level or to a method of the enclosing
+            # class) with the variables it captured turned into leading parameters
+            ref = set(known.get("fingerprint", {}).get(q, []))
+            if not ref:
+                continue
+            top = parent_now.split(".")[0]
+            cls_prefix = parent_now.rsplit(".", 1)[0] if parent_now.count(".") >= 2 else None
+            moved = []
+            for n in new:
+                fi = self.functions[n]
+                if n in self._aliases.values() or fi.parent is not None or fi.module != top:
+                    continue
+                if not (n.count(".") == 1 or (cls_prefix is not None and n.rsplit(".", 1)[0] == cls_prefix) or (nested_cls and n.count(".") == 2)):
+                    continue
+                ps = [x for x in params(fi) if x not in ("self", "cls")]
+                want_ps = [x for x in kparams[q] if x not in ("self", "cls")]
+                if want_ps and ps[len(ps) - len(want_ps):] != want_ps:
+                    continue
+                if not want_ps and len(ps) > 4:
+                    continue
+                fp = set(fingerprint(fi.node))
+                score = len(ref & fp) / max(1, len(ref | fp))
+                moved.append((score, n))
+            moved.sort(reverse=True)
+            if moved and moved[0][0] >= 0.5 and (len(moved) == 1 or moved[0][0] > moved[1][0]):
+                self._aliases[q] = moved[0][1]
+                self.moved[q] = moved[0][1]
         return self._aliases
 
     def cls(self, qualname: str) -> ClassInfo:
